@@ -175,6 +175,54 @@ def communityBeginBlock (now inflow : Int) (s : CommSt) : Res (CommSt × Bool ×
   | .err => .err
   | .panic => .panic
 
+/-- `Params.Validate` of x/community/types/params.go: both rates are non-negative (any upgrade time,
+    including the zero time, is valid) -/
+def CommParams.valid (p : CommParams) : Bool := decide (0 ≤ p.rate.m) && decide (0 ≤ p.upgradeRate.m)
+
+/-- `msgServer.UpdateParams` (x/community/keeper/msg_server.go), the governance `MsgUpdateParams`:
+    wrong authority ⇒ error, invalid params ⇒ error, otherwise the params are stored — and NOTHING else:
+    the staking-rewards state (accumulation time, carried truncation error), the pool and the fee
+    collector are not touched.  A failed message changes nothing (`authOk` = the message's authority is
+    the keeper's authority, the x/gov module account). -/
+def updateParamsMsg (authOk : Bool) (new : CommParams) (s : CommSt) : Res CommSt :=
+  if !authOk then .err
+  else if !new.valid then .err
+  else .ok { s with params := new }
+
+/-- One step of a staking-rewards history as governance and the chain interleave them:
+    a block `(time, pool balance seen)` — its begin blocker pays at the rate stored at that moment —
+    or a params-update message (executed after the begin blocker of its block, before the next block)
+    that replaces the stored rate. -/
+inductive HStep where
+  | block (now pool : Int)
+  | update (rate : Dec)
+deriving Repr, DecidableEq
+
+/-- run a history of blocks and params updates from (stored rate, accumulation time, carried error):
+    a block is `calculateStakingRewards` with the stored rate, threaded as `PayoutAccumulatedStakingRewards`
+    threads it; an update only replaces the stored rate (`updateParamsMsg` is the identity on the
+    staking-rewards state).  Returns the per-block payouts, final accumulation time, error and rate. -/
+def runHist : Dec → Int → Dec → List HStep → List Int × Int × Dec × Dec
+  | rate, last, err, [] => ([], last, err, rate)
+  | rate, last, err, .block now pool :: hs =>
+    let r := calculateStakingRewards now last err rate (Dec.ofInt pool)
+    let rest := runHist rate now r.2 hs
+    (r.1 :: rest.1, rest.2)
+  | _, last, err, .update rate' :: hs => runHist rate' last err hs
+
+/-- the blocks of a history with the rate in force for each: the rate stored when its begin blocker ran -/
+def blocksOf : Dec → List HStep → List (Int × Int × Dec)
+  | _, [] => []
+  | rate, .block now pool :: hs => (now, pool, rate) :: blocksOf rate hs
+  | _, .update rate' :: hs => blocksOf rate' hs
+
+/-- the cap is never taken along a history with per-block rates -/
+def uncappedR : Int → Dec → List (Int × Int × Dec) → Bool
+  | _, _, [] => true
+  | last, err, (now, pool, rate) :: bs =>
+    !decide ((Dec.ofInt pool).m < (accrued now last err rate).m) &&
+      uncappedR now (calculateStakingRewards now last err rate (Dec.ofInt pool)).2 bs
+
 /-- run the switch-over alone over a list of block times; returns the fired flags and the final state -/
 def runDisable : CommParams → Infl → List Int → List Bool × CommParams × Infl
   | p, x, [] => ([], p, x)
